@@ -224,6 +224,7 @@ def obligations(tier, seed):
             only_dstar = all(w.get("double_star_admissible") for w in r["greedy"][1]["why"])
             (bad_greedy_dstar if only_dstar else bad_greedy).append(r["greedy"][1])
     fn = "gemclus.tree.kauri.Kauri.fit"
+    obs.extend(size_ladder(seed, tier))
     obs.append(Ob(f"native fits: structural limits, self-consistent partition, predict == labels_, score == objective ({nfit} fits)",
                   PROVED if not bad_struct else REFUTED, "native", "B", {"fits": nfit, "failing": bad_struct[:3], "replayed": True}, fn=fn))
     obs.append(Ob(f"native fits: gain == real increase, chosen split is the best admissible one, telescoping, stopping rule -- steps where no double-star is admissible ({nfit} fits)",
@@ -232,6 +233,44 @@ def obligations(tier, seed):
                   PROVED if not bad_greedy_dstar else REFUTED, "native", "B",
                   {"fits": nfit, "failing": bad_greedy_dstar[:2], "count": len(bad_greedy_dstar), "replayed": True}, fn=fn))
     return obs
+
+
+def size_ladder(seed, tier):
+    """B: the same audit on LARGER fits than the exhaustive small states: more than 16 leaves / clusters, trees deeper than 5
+    (comb-like data), a few hundred samples -- stand-in for the missing induction over the number of samples, leaves and the depth."""
+    rs = np.random.RandomState(seed + 11)
+    c = rs.normal(scale=5, size=(8, 3))
+    blobs = np.vstack([c[i] + rs.normal(size=(6, 3)) for i in range(8)])
+    x = np.cumsum(2.0 ** np.arange(12))[:, None]
+    comb = np.vstack([x, x + 0.1, x + 0.2])
+    wide = rs.normal(size=(40, 9))
+    cases = [("48 samples, 24 leaves / clusters", blobs, dict(max_clusters=24, max_leaves=24, kernel="linear")),
+             ("48 samples, 20 clusters, rbf", blobs, dict(max_clusters=20, kernel="rbf")),
+             ("comb data (depth 8)", comb, dict(max_clusters=12, kernel="linear")),
+             ("comb data, min_samples_leaf 2", comb, dict(max_clusters=9, kernel="linear", min_samples_leaf=2, min_samples_split=4)),
+             ("9 features, 5 drawn", wide, dict(max_clusters=6, kernel="linear", max_features=5))]
+    if tier != "quick":
+        big = np.vstack([rs.normal(size=(150, 2)) + 6 * np.array([np.cos(a), np.sin(a)]) for a in (0.0, 2.1, 4.2)])[::2]
+        cases.append(("225 samples", big, dict(max_clusters=5, kernel="linear", max_depth=7)))
+    bad_s, bad_g = [], []
+    n = 0
+    for tag, X, params in cases:
+        params = dict(params, random_state=seed)
+        try:
+            r = audit_fit(X, params)
+        except Exception as e:
+            bad_s.append({"case": tag, "params": params, "exception": repr(e)[:300]})
+            continue
+        n += 1
+        if not r["structure"][0]:
+            bad_s.append(dict(r["structure"][1], case=tag))
+        if not r["greedy"][0] and not all(w.get("double_star_admissible") for w in r["greedy"][1]["why"]):
+            bad_g.append(dict(r["greedy"][1], case=tag))
+    fn = "gemclus.tree.kauri.Kauri.fit"
+    return [Ob(f"size ladder: larger native fits (> 16 leaves, depth > 5, 9 features): structural limits, self-consistent partition, predict == labels_, score == objective ({n} fits)",
+               PROVED if not bad_s else REFUTED, "native", "B", {"fits": n, "failing": bad_s[:2], "replayed": True}, fn=fn),
+            Ob(f"size ladder: larger native fits: gain == real increase, chosen split is the best admissible one, telescoping, stopping rule (steps without admissible double-star; {n} fits)",
+               PROVED if not bad_g else REFUTED, "native", "B", {"fits": n, "failing": bad_g[:2], "replayed": True}, fn=fn)]
 
 
 def selection_search(seed, tries=400):
